@@ -2,7 +2,7 @@
 import vlib
 
 STRUCT1 = ("cert", "ident", "mapping")
-STRUCT2 = ("prims", "lease", "sig", "offsig", "raddr", "rinfo", "ricaps", "ls", "ls2", "meta", "els")
+STRUCT2 = ("prims", "lease", "sig", "offsig", "raddr", "rinfo", "ricaps", "ls", "ls2", "meta", "els", "serchain")
 
 
 def gen_structs(run, fams1=STRUCT1, fams2=STRUCT2):
